@@ -234,6 +234,41 @@ def loser_run_check(rep, rng, top: Path, k: int) -> bool:
     return found
 
 
+def quiescent_after_run_check(rep, rng, top: Path, k: int) -> bool:
+    """When run() returns the lock is released: nothing of that instance may still be modifying the
+    mirror afterwards (work handed to a worker thread must be finished before the locked section ends).
+    A run that has stale files to clean is followed by two snapshots 0.4 s apart."""
+    import time
+    from . import pipeline as P
+    from . import runs as R
+    found = False
+    scn = P.gen_scenario(rng, nrepos=1)
+    base = top / f"quiet{k}"
+    r0 = P.run_tool(scn, base)
+    if r0.code != 0:
+        return False
+    scn2 = P.Scenario([dict(r, version=P.gen_version(rng, serial=2, prev=r["version"])) for r in scn.repos], nthreads=scn.nthreads,
+                      autoclean=(k % 2 == 0))
+    # many stale files so that cleaning takes a while if it runs in the background
+    mroot = base / "mirror" / P.repo_dir(scn.repos[0]["url"]) / "pool" / "stale"
+    mroot.mkdir(parents=True, exist_ok=True)
+    for i in range(400):
+        (mroot / f"old_{i}.deb").write_bytes(b"x" * 10)
+    res = P.run_tool(scn2, base)
+    snap1 = P.tree_listing(base, False)
+    time.sleep(0.4)
+    snap2 = P.tree_listing(base, False)
+    rep.case(("quiescent", res.code, scn2.autoclean), sample={"exit": res.code, "entries": len(snap1)})
+    rep.count("quiescent")
+    if set(snap1) != set(snap2):
+        found = True
+        diff = sorted(set(snap1) ^ set(snap2))[:4]
+        rep.violation(f"after run() returned (lock released) the instance still changes its trees: {diff}",
+                      {"kind": "oracle", "tie": "quiescent", "case": {"kind": "quiescent", "k": k}}, tags={"oracle": "quiescent"})
+    shutil.rmtree(base, ignore_errors=True)
+    return found
+
+
 def run(rep: C.Report):
     rep.rule = ("every interleaving of the gated protocol steps (open, flock, leave+close, unlink if any) of 2 "
                 "processes, sampled interleavings of 3 (incl. the late-opener pattern), one real "
@@ -288,6 +323,8 @@ def run(rep: C.Report):
                 shutil.rmtree(var, ignore_errors=True)
         for i in range(4 if rep.tier == "quick" else 60):
             found |= loser_run_check(rep, rng, top, i)
+        for i in range(2 if rep.tier == "quick" else 20):
+            found |= quiescent_after_run_check(rep, rng, top, i)
         var = top / "stale"
         var.mkdir()
         ok = stale_lock_check(var)
